@@ -241,6 +241,55 @@ func zzC16Calls() {
 	vf.Reach("end")
 }
 
+// C16.f: a caller waiting in SendCallAndWaitReplayCall gets its reply also when the shared reply
+// inbox (ReceiveReplyCall's queue) is full because nobody drains it; the inbox keeps its oldest
+// entries in order.
+func zzC16fInboxFull() {
+	b := zzNewBroker()
+	b.handler = func(t *zzTr, m message.Message) bool { return true }
+	conn := zzConnect(b)
+	tr := b.last()
+	ctx := context.Background()
+	// state construction: the inbox is full of replies nobody has collected
+	n := cap(conn.replyCallCh)
+	for i := 0; i < n; i++ {
+		conn.replyCallCh <- &message.DownstreamCall{CallID: "old", RequestCallID: "nobody"}
+	}
+	var reply *DownstreamReplyCall
+	var err error
+	done := false
+	go func() {
+		reply, err = conn.SendCallAndWaitReplayCall(ctx, &UpstreamCall{DestinationNodeID: "dst", Name: "n", Type: "t"})
+		done = true
+	}()
+	vf.Settle()
+	calls := zzCallsOf(tr)
+	vf.Assume(len(calls) == 1)
+	rp := vf.U8("reply.payload")
+	if vf.Choose("reply.before.ack", 2) == 1 {
+		tr.push(&message.DownstreamCall{CallID: "r1", RequestCallID: calls[0].CallID, SourceNodeID: "dst", Name: "rn", Type: "rt", Payload: []byte{rp}})
+		tr.push(&message.UpstreamCallAck{CallID: calls[0].CallID, ResultCode: message.ResultCodeSucceeded})
+	} else {
+		tr.push(&message.UpstreamCallAck{CallID: calls[0].CallID, ResultCode: message.ResultCodeSucceeded})
+		tr.push(&message.DownstreamCall{CallID: "r1", RequestCallID: calls[0].CallID, SourceNodeID: "dst", Name: "rn", Type: "rt", Payload: []byte{rp}})
+	}
+	vf.Settle()
+	vf.Assert("waiter-gets-reply-with-full-inbox", done && err == nil && reply != nil)
+	if reply != nil {
+		vf.Assert("reply-unmodified", reply.CallID == "r1" && reply.RequestCallID == calls[0].CallID && len(reply.Payload) == 1 && reply.Payload[0] == rp)
+	}
+	vf.Assert("waiter-table-empty", len(conn.replyCallChs) == 0 && vf.Unlocked(&conn.replyCallsChsMu))
+	first, rerr := conn.ReceiveReplyCall(ctx)
+	vf.Assert("inbox-keeps-oldest", rerr == nil && first != nil && first.CallID == "old")
+	// the connection still serves calls afterwards
+	tr.push(&message.DownstreamCall{CallID: "c9", SourceNodeID: "n9", Name: "a", Type: "b"})
+	vf.Settle()
+	g, gerr := conn.ReceiveCall(ctx)
+	vf.Assert("still-serving", gerr == nil && g != nil && g.CallID == "c9")
+	conn.Close(ctx)
+	vf.Reach("end")
+}
+
 // C16.d: incoming calls are handed to ReceiveCall once each, unmodified, in arrival order.
 func zzC16Receive() {
 	b := zzNewBroker()
@@ -905,6 +954,112 @@ func zzC03ePreregistered() {
 		vf.Assert("preregistered-alias-resolves-to-the-announced-id", e == nil && c != nil && len(c.DataPointGroups) == 1 && *c.DataPointGroups[0].DataID == *want)
 		seq++
 	}
+	conn.Close(ctx)
+	vf.Reach("end")
+}
+
+type zzEvents struct {
+	disconnected, reconnected, upResumed, downResumed, upClosed, downClosed int
+}
+
+func (e *zzEvents) OnDisconnected(*DisconnectedEvent)          { e.disconnected++ }
+func (e *zzEvents) OnReconnected(*ReconnectedEvent)            { e.reconnected++ }
+func (e *zzEvents) OnUpstreamResumed(*UpstreamResumedEvent)    { e.upResumed++ }
+func (e *zzEvents) OnDownstreamResumed(*DownstreamResumedEvent) { e.downResumed++ }
+func (e *zzEvents) OnUpstreamClosed(*UpstreamClosedEvent)      { e.upClosed++ }
+func (e *zzEvents) OnDownstreamClosed(*DownstreamClosedEvent)  { e.downClosed++ }
+
+// C05.e: one outage, whole API: the transport dies without Close having been called; keepalive
+// notices; the connection redials with a fresh token; the upstream and the downstream resume under
+// their original ids (the downstream under its original alias); a metadata request issued during the
+// outage is sent after recovery instead of failing; the unacknowledged reliable chunk is sent again
+// with its number and payload; notifications fire once; both streams keep working.
+func zzC05eOutage() {
+	b := zzNewBroker()
+	zzServeStreams(b)
+	ev := &zzEvents{}
+	conf := b.config()
+	conf.DisconnectedEventHandler = ev
+	conf.ReconnectedEventHandler = ev
+	n := 0
+	randomString = func() string { n++; return "call-" + string(rune('a'+n)) }
+	conn, err := ConnectWithConfig(conf)
+	vf.Assume(err == nil)
+	vf.Settle()
+	ctx := context.Background()
+	tr1 := b.last()
+	up, err := conn.OpenUpstream(ctx, "session", WithUpstreamFlushPolicyNone(), WithUpstreamQoS(message.QoSReliable), WithUpstreamResumedEventHandler(ev), WithUpstreamClosedEventHandler(ev))
+	vf.Assume(err == nil)
+	down, err := conn.OpenDownstream(ctx, []*message.DownstreamFilter{{SourceNodeID: "node"}}, WithDownstreamResumedEventHandler(ev), WithDownstreamClosedEventHandler(ev))
+	vf.Assume(err == nil)
+	vf.Settle()
+	var openDown *message.DownstreamOpenRequest
+	for _, m := range tr1.msgs() {
+		if r, ok := m.(*message.DownstreamOpenRequest); ok {
+			openDown = r
+		}
+	}
+	vf.Assume(openDown != nil)
+	pay := vf.U8("payload")
+	id := &message.DataID{Name: "n", Type: "t"}
+	vf.Assert("write-before-outage", up.WriteDataPoints(ctx, id, &message.DataPoint{ElapsedTime: 1, Payload: []byte{pay}}) == nil)
+	vf.Assert("flush-before-outage", up.Flush(ctx) == nil)
+	vf.Settle()
+	vf.Assert("chunk-1-sent-unacknowledged", len(zzUpstreamChunksOf(tr1)) == 1)
+	// the transport dies (the broker never acknowledged chunk 1)
+	tr1.Close()
+	vf.Settle()
+	// a request issued during the outage
+	var merr error
+	mdone := false
+	go func() { merr = conn.SendMetadata(ctx, &message.BaseTime{SessionID: "session", Name: "during-outage"}); mdone = true }()
+	vf.Settle()
+	// keepalive notices at the next ping
+	vf.Advance(11 * time.Second)
+	vf.Settle()
+	vf.Advance(2 * time.Second)
+	vf.Settle()
+	tr2 := b.last()
+	vf.Assert("redialled-once", b.dials == 2 && tr2 != tr1)
+	vf.Assert("fresh-token-on-redial", b.tokens == 2 && tr2.token == "token-b")
+	var upRes []*message.UpstreamResumeRequest
+	var downRes []*message.DownstreamResumeRequest
+	metaSeen := 0
+	for _, m := range tr2.msgs() {
+		switch r := m.(type) {
+		case *message.UpstreamResumeRequest:
+			upRes = append(upRes, r)
+		case *message.DownstreamResumeRequest:
+			downRes = append(downRes, r)
+		case *message.UpstreamMetadata:
+			if bt, ok := r.Metadata.(*message.BaseTime); ok && bt.Name == "during-outage" {
+				metaSeen++
+			}
+		}
+	}
+	vf.Assert("upstream-resumed-under-its-original-id", len(upRes) == 1 && upRes[0].StreamID == up.ID)
+	vf.Assert("downstream-resumed-under-its-original-id-and-alias", len(downRes) == 1 && downRes[0].StreamID == down.ID && downRes[0].DesiredStreamIDAlias == openDown.DesiredStreamIDAlias)
+	vf.Assert("request-during-outage-sent-after-recovery", mdone && merr == nil && metaSeen == 1)
+	// the unacknowledged reliable chunk is sent again, unchanged, under the new alias
+	resent := zzUpstreamChunksOf(tr2)
+	vf.Assert("unacked-chunk-resent-once", len(resent) == 1)
+	if len(resent) == 1 {
+		c := resent[0]
+		vf.Assert("resent-with-its-original-number-and-payload", c.StreamChunk.SequenceNumber == 1 && len(c.StreamChunk.DataPointGroups) == 1 &&
+			len(c.StreamChunk.DataPointGroups[0].DataPoints) == 1 && len(c.StreamChunk.DataPointGroups[0].DataPoints[0].Payload) == 1 && c.StreamChunk.DataPointGroups[0].DataPoints[0].Payload[0] == pay)
+	}
+	vf.Assert("notifications-once-per-outage", ev.disconnected == 1 && ev.reconnected == 1 && ev.upResumed == 1 && ev.downResumed == 1)
+	vf.Assert("nobody-was-closed", ev.upClosed == 0 && ev.downClosed == 0)
+	// both streams keep working
+	vf.Assert("write-after-recovery", up.WriteDataPoints(ctx, id, &message.DataPoint{ElapsedTime: 2}) == nil && up.Flush(ctx) == nil)
+	vf.Settle()
+	after := zzUpstreamChunksOf(tr2)
+	vf.Assert("new-chunk-continues-the-numbering", len(after) == 2 && after[1].StreamChunk.SequenceNumber == 2)
+	tr2.push(&message.DownstreamChunk{StreamIDAlias: openDown.DesiredStreamIDAlias, UpstreamOrAlias: &message.UpstreamInfo{SessionID: "s", SourceNodeID: "node", StreamID: zzStreamID1},
+		StreamChunk: &message.StreamChunk{SequenceNumber: 5, DataPointGroups: []*message.DataPointGroup{{DataIDOrAlias: &message.DataID{Name: "x", Type: "t"}, DataPoints: []*message.DataPoint{{ElapsedTime: 1}}}}}})
+	vf.Settle()
+	dc, derr := down.ReadDataPoints(ctx)
+	vf.Assert("downstream-reads-after-recovery", derr == nil && dc != nil && dc.SequenceNumber == 5)
 	conn.Close(ctx)
 	vf.Reach("end")
 }
